@@ -284,3 +284,62 @@ def load_review():
     with open(p) as f:
         d = json.load(f)
     return {e["key"]: e for e in d.get("entries", [])}
+
+
+# ------------------------------------------------------------------ producers
+
+
+def origin_call(fl, operand, depth=12):
+    """the call Term that produced the value in `operand` (through moves, re-borrows and
+    transparent wrappers), or None"""
+    b = fl.b
+    op = operand
+    while depth > 0 and op is not None and op.place is not None:
+        depth -= 1
+        p = op.place
+        if b.local_name(p.local) is not None and p.local > b.arg_count and len(b.assigns_to(p.local)) != 1:
+            return None
+        d = fl.single_def(p.local)
+        if d is None:
+            return None
+        if getattr(d, "k", None) == "call":
+            nm = d.callee.short.split("::")[-1] if d.callee else "<indirect>"
+            if nm in TRANSPARENT and d.args:
+                op = d.args[0]
+                continue
+            return d
+        rv = d.rv
+        if rv.k in ("use", "cast") and rv.ops:
+            op = rv.ops[0]
+            continue
+        if rv.k in ("ref", "copyderef"):
+            from flow import _LocalOperand
+
+            op = _LocalOperand(rv.place.local, b.local_ty(rv.place.local))
+            continue
+        return None
+    return None
+
+
+def const_divisor_nonzero(body, assert_term):
+    """idiom 5: the Div/Rem guarded by this DivisionByZero/RemainderByZero assert has a non-zero constant divisor"""
+    tb = body.blocks[assert_term.target] if assert_term.target is not None else None
+    cand = []
+    if tb is not None:
+        cand.extend(tb.stmts)
+    for s in cand:
+        if s.k == "assign" and s.rv.k == "binop" and s.rv.j["op"] in ("Div", "Rem"):
+            dv = s.rv.ops[1]
+            if dv.is_const() and dv.const_int() not in (None, 0):
+                return True
+            return False
+    return False
+
+
+def assert_operands(body, assert_term):
+    """(op, lhs operand, rhs operand) of the checked arithmetic behind an Overflow assert"""
+    blk = body.blocks[assert_term.bb]
+    for s in reversed(blk.stmts):
+        if s.k == "assign" and s.rv.k == "binop" and s.rv.j["op"].endswith("WithOverflow"):
+            return (s.rv.j["op"][: -len("WithOverflow")], s.rv.ops[0], s.rv.ops[1], s)
+    return None
